@@ -22,6 +22,9 @@ def make_model(case):
     om = np.array([OMS[(case["om0"] + 2 * i) % len(OMS)] for i in range(n)]) * f
     M0 = np.array([0.3 + 1.9 * i for i in range(n)]) * f
     Pd = np.array(([2.5, 17.0, 1.25, 300.0] + [5.5 + 3.25 * k for k in range(8)])[:n]) + case.get("jit", 0.0)
+    if case.get("ptie"):
+        # tied periods: each value occurs twice (as in the output of n_linear_samples=2, or two concatenated runs)
+        Pd = np.repeat(Pd[: (n + 1) // 2], 2)[:n][np.array(case["ptie"]) if isinstance(case["ptie"], list) else np.arange(n)]
     P = Pd / 365.25 if case["punit"] == "yr" else Pd
     e = np.array(([0.0, 0.4] * 6)[:n])
     kf = 1000.0 if case["kunit"] == "m / s" else 1.0
@@ -269,10 +272,11 @@ def check_table(case, part):
         return
     Pv = m.cols["P"][0]
     want_P = np.sort(Pv)[n // 2]
-    j = int(np.argmin(np.abs(Pv - want_P)))
-    d = T.diff(T.from_impl(mp), m.rows([j]))
-    if d:
-        part.violation(case, "median_period() is not the member row whose P is the len//2-th order statistic: " + d)
+    # (with tied periods any ONE of the rows carrying the median value is acceptable)
+    cands = [int(j) for j in np.where(Pv == want_P)[0]]
+    ds = [T.diff(T.from_impl(mp), m.rows([j])) for j in cands]
+    if all(ds):
+        part.violation(case, "median_period() is not one member row whose P is the len//2-th order statistic: " + ds[0])
         return
 
 
@@ -422,6 +426,11 @@ def build_cases(quick, seed):
             Ks = [KS[i % 4] for i in range(n)]
             cases.append(dict(kind="table", K=Ks, om0=n % 6, aunit="rad" if n % 2 else "deg", kunit="km / s", punit="d", t_ref=tr, poly_trend=pt,
                               n_offsets=no, jit=jit, colorder="canon" if n % 2 else "rot"))
+    # tables with tied periods (median_period must still be ONE member row; per-row operations must not merge equal-P rows)
+    for n, perm in ((2, None), (3, None), (4, None), (4, [0, 2, 1, 3]), (5, [4, 0, 2, 1, 3]), (6, None)):
+        for (tr, pt, no) in ((True, 1, 0), (True, 2, 1)):
+            cases.append(dict(kind="table", K=[KS[i % 4] for i in range(n)], om0=n % 6, aunit="rad", kunit="km / s", punit="d" if n % 2 else "yr", t_ref=tr,
+                              poly_trend=pt, n_offsets=no, jit=jit, colorder="canon", ptie=perm if perm is not None else True))
     chains = []
     depth = 3 if quick else 4
     base = [dict(K=[-3.0, 2.0, -0.5], om0=1, aunit="deg", kunit="m / s", punit="yr", t_ref=True, poly_trend=2, n_offsets=1, jit=jit),
